@@ -24,12 +24,20 @@
 (*   \/ ((redeemers \/ datums) /\ declared term = right term).               *)
 (* The driver computes every term with the real Blake2b-256 over real bytes  *)
 (* and executes the row on real Alonzo .. Dijkstra transactions.             *)
+(*                                                                           *)
+(* Part 3: the phase-2 flag.  Every transaction of these eras carries        *)
+(* is_valid; false = its Plutus scripts fail, the block producer includes it *)
+(* anyway and only its collateral is collected.  The script integrity hash   *)
+(* is a phase-1 check of UTXOW: it is a precondition of BOTH branches of     *)
+(* UTXOS, so the table of part 2 does not read the flag (FlagIrrelevant).    *)
+(* The case space has the flag as the field p2 (TRUE = is_valid is false).   *)
 EXTENDS Integers, Sequences, FiniteSets, Json, TLC, SequencesExt
 
 CONSTANTS
     MaxLang,     \* languages 0..MaxLang (0 = PlutusV1, 1 = V2, 2 = V3, 3 = V4)
     Shapes,      \* cost-model shapes, see CostLen
-    RuleShapes   \* the shapes the rule rows are generated for (subset of Shapes)
+    RuleShapes,  \* the shapes the rule rows are generated for (subset of Shapes)
+    P2Shapes     \* the shapes the FLAGGED rule rows (is_valid = false) are generated for (subset of RuleShapes)
 
 Langs == 0..MaxLang
 
@@ -122,6 +130,14 @@ SetForm(fld) == fld \in {"emptySet", "set"}              \* tag-258 sets exist f
 
 ErasOf(L, fld) == {e \in Eras : L \subseteq (EraLangs(e) \cap Langs) /\ (SetForm(fld) => e \in {"conway", "dijkstra"})}
 
+\* How a transaction comes to be flagged is_valid = false (field p2 of a case):
+\*   alonzo, babbage, conway   the third element of the transaction's envelope is false
+\*   dijkstra                  the envelope cannot say so (three elements, or four with true only);
+\*                             a transaction is flagged by being a member of its block's
+\*                             invalid_transactions set, from which the block decoder sets the flag
+\* In every era the flag is read by UTXOS only; all of UTXO / UTXOW - and so this rule - comes first.
+FlagCarrier(e) == IF e = "dijkstra" THEN "blockSet" ELSE "envelope"
+
 \* what a transaction can declare
 Decls == {"absent", "right",
           "random",       \* 32 unrelated bytes
@@ -167,6 +183,7 @@ Declared(c) ==
 
 HasScriptData(c) == c.red \/ Dat(c)
 
+\* Accept and Reason are functions of (L, shape, red, datf, decl) alone: p2 is not read
 Accept(c) ==
     IF ~HasScriptData(c) THEN c.decl = "absent"
     ELSE c.decl # "absent" /\ Declared(c) = Right(c)
@@ -179,8 +196,19 @@ Reason(c) ==
 ---------------------------------------------------------------------------
 (* The case space (one state per case)                                      *)
 
-Case(L, shape, red, datf, decl) == [L |-> L, shape |-> shape, red |-> red, datf |-> datf, decl |-> decl]
-CaseSpace == { Case(L, s, r, d, k) : L \in SUBSET Langs, s \in RuleShapes, r \in BOOLEAN, d \in DatFields, k \in Decls }
+Case(L, shape, red, datf, decl, p2) == [L |-> L, shape |-> shape, red |-> red, datf |-> datf, decl |-> decl, p2 |-> p2]
+Unflagged == { Case(L, s, r, d, k, FALSE) : L \in SUBSET Langs, s \in RuleShapes, r \in BOOLEAN, d \in DatFields, k \in Decls }
+Flagged   == { Case(L, s, r, d, k, TRUE)  : L \in SUBSET Langs, s \in P2Shapes,   r \in BOOLEAN, d \in DatFields, k \in Decls }
+CaseSpace == Unflagged \cup Flagged
+
+ASSUME P2Shapes \subseteq RuleShapes /\ RuleShapes \subseteq Shapes
+
+\* A flagged transaction without a redeemer is not a transaction a block can hold (is_valid =
+\* false says that a script failed, and a script that ran has a redeemer): another rule rejects it
+\* whatever this one says.  This rule's verdict on it is still the table's, but an implementation
+\* that rejects it HERE although the table accepts admits nothing the ledger forbids: on such rows
+\* only "the table rejects => the rule rejects" binds the code (Row.binding = "rejectOnly").
+Admissible(c) == c.p2 => c.red
 
 VARIABLE c
 Init == c \in CaseSpace
@@ -241,6 +269,22 @@ RuleShape ==
     /\ (HasScriptData(c) /\ c.decl = "fewerLangs" => (Accept(c) <=> c.L = {}))
     /\ (HasScriptData(c) /\ c.decl \in Variants => (Accept(c) <=> View(c.L, c.shape, c.decl) = cv))
 
+\* the phase-2 flag never changes the verdict, the reason, the right term or the declared term;
+\* every flagged case has its unflagged twin in the case space (so the flagged rows are the
+\* unflagged table again, and the twin is executed as well)
+Twin(x) == [x EXCEPT !.p2 = ~x.p2]
+FlagIrrelevant ==
+    /\ Accept(c) = Accept(Twin(c))
+    /\ Reason(c) = Reason(Twin(c))
+    /\ Right(c) = Right(Twin(c))
+    /\ Declared(c) = Declared(Twin(c))
+    /\ (c.p2 => Twin(c) \in Unflagged)
+    /\ (~c.p2 /\ c.shape \in P2Shapes => Twin(c) \in Flagged)
+    \* flagged rows of both verdicts exist wherever the unflagged table has both, with and
+    \* without redeemers: an implementation that skips the rule for flagged transactions
+    \* (accept all) or refuses them all differs from the table on an admissible row
+    /\ (c.p2 /\ c.red => \E k1, k2 \in Decls : Accept([c EXCEPT !.decl = k1]) /\ ~Accept([c EXCEPT !.decl = k2]))
+
 ---------------------------------------------------------------------------
 SetSeq(S) == SortSeq(SetToSeq(S), LAMBDA x, y : x < y)
 
@@ -253,10 +297,12 @@ Row(x) ==
     LET p == DeclParts(x) IN
     [L |-> SetSeq(x.L), shape |-> x.shape, red |-> x.red, datf |-> x.datf, dat |-> Dat(x), decl |-> x.decl,
      declRed |-> p.red, declDat |-> p.dat, declL |-> SetSeq(p.L), declVariant |-> p.v,
-     eras |-> ErasOf(x.L, x.datf), accept |-> Accept(x), reason |-> Reason(x)]
+     eras |-> ErasOf(x.L, x.datf), accept |-> Accept(x), reason |-> Reason(x),
+     p2 |-> x.p2, binding |-> IF Admissible(x) THEN "both" ELSE "rejectOnly"]
 
 Rows(S, F(_)) == LET q == SetToSeq(S) IN [i \in 1..Len(q) |-> F(q[i])]
 ViewKeys == (SUBSET Langs) \X Shapes \X Variants
 ASSUME ndJsonSerialize("views.ndjson", Rows(ViewKeys, LAMBDA k : ViewRow(k[1], k[2], k[3])))
 ASSUME ndJsonSerialize("rules.ndjson", Rows(CaseSpace, Row))
+ASSUME ndJsonSerialize("flag.ndjson", Rows(Eras, LAMBDA e : [era |-> e, carrier |-> FlagCarrier(e)]))
 =============================================================================
